@@ -102,10 +102,16 @@ class DecodeState:
                               f"multiple of 8 bits (is: {bit_length} bits)")
 
         padding = (8 - (bit_length + self.cursor_bit_position) % 8) % 8
-        raw_value, = bitstruct.unpack_from(
-            f"{base_data_type.bitstruct_format_letter}{bit_length}",
-            extracted_bytes,
-            offset=padding)
+        try:
+            raw_value, = bitstruct.unpack_from(
+                f"{base_data_type.bitstruct_format_letter}{bit_length}",
+                extracted_bytes,
+                offset=padding)
+        except NotImplementedError as e:
+            # e.g., the C implementation of bitstruct does not
+            # support integers of more than 64 bits
+            raise DecodeError(
+                f"Cannot extract a {base_data_type.value} object of {bit_length} bits: {e}") from e
         internal_value: AtomicOdxType
 
         # Deal with raw byte fields, ...
